@@ -18,16 +18,20 @@ type logTap struct {
 	mu      sync.Mutex
 	markers [][]byte
 	seen    map[string]bool
+	lines   map[string][]string // the matching lines (at most 64 per marker)
 	echo    bool
 }
 
-var tap = &logTap{seen: map[string]bool{}}
+var tap = &logTap{seen: map[string]bool{}, lines: map[string][]string{}}
 
 func (t *logTap) Write(p []byte) (int, error) {
 	t.mu.Lock()
 	for _, m := range t.markers {
 		if bytes.Contains(p, m) {
 			t.seen[string(m)] = true
+			if len(t.lines[string(m)]) < 64 {
+				t.lines[string(m)] = append(t.lines[string(m)], string(p))
+			}
 		}
 	}
 	echo := t.echo
@@ -52,7 +56,15 @@ func LogMarkers(ms ...string) {
 func LogReset() {
 	tap.mu.Lock()
 	tap.seen = map[string]bool{}
+	tap.lines = map[string][]string{}
 	tap.mu.Unlock()
+}
+
+// LogLines returns the lines logged with the marker since the last reset.
+func LogLines(m string) []string {
+	tap.mu.Lock()
+	defer tap.mu.Unlock()
+	return append([]string(nil), tap.lines[m]...)
 }
 
 // LogSeen reports whether the marker was logged since the last reset.
